@@ -194,7 +194,7 @@ VOCAB = {
 
 # which shape group can reach acceptance (default A) / rejection (default A); None = not in the generic domain
 ACC = {'tuple_fix': 'B', 'tuple_lit': 'B', 'range': None, 'tag_adj': None, 'tag_ext': None, 'struct': 'C', 'pn': None,
-       'pt': 'A'}
+       'pt': 'A', 'cond_set': 'B'}
 REJ = {'any': None}
 MAPPISH = {'any', 'dict_si', 'dict_if', 'counter', 'ddict', 'struct', 'union', 'p1', 'p2', 'ph', 'pal', 'range', 'dict_p2',
            'tag_int', 'tag_ext', 'tag_adj', 'vol', 'picky', 'pn', 'pi', 'union_tag_dict', 'opt_vol'}
@@ -535,6 +535,8 @@ TD = {
     'p1_struct': ('p1', "pa: bool, ka: int, ia: int, sa: str, pb: bool, kb: int, ib: int, sb: str, pe: bool",
                   "0 <= ka <= 5 and 0 <= kb <= 2", "b_struct2(pa, ka, ia, sa, pb, kb, ib, sb, pe)", (0, -1)),
     'p2_struct': ('p2', "pa: bool, ka: int, ia: int, sa: str, pb: bool, kb: int, ib: int, sb: str, pe: bool",
+                  "0 <= ka <= 5 and 0 <= kb <= 2", "b_struct2(pa, ka, ia, sa, pb, kb, ib, sb, pe)", (0, -1)),
+    'picky_map': ('picky', "pa: bool, ka: int, ia: int, sa: str, pb: bool, kb: int, ib: int, sb: str, pe: bool",
                   "0 <= ka <= 5 and 0 <= kb <= 2", "b_struct2(pa, ka, ia, sa, pb, kb, ib, sb, pe)", (0, -1)),
     'struct_struct': ('struct', "pa: bool, ka: int, ia: int, sa: str, pb: bool, kb: int, ib: int, sb: str, pe: bool",
                       "0 <= ka <= 5 and 0 <= kb <= 2", "b_struct2(pa, ka, ia, sa, pb, kb, ib, sb, pe)", (0, -1)),
